@@ -385,6 +385,7 @@ func checkC13(w *World, r *Report) {
 					return o.HasPath("MinterState.SequenceId") && o.HasCall("Keeper.GetMinterState", "codec.BinaryCodec.MustUnmarshal")
 				}, true)
 			}}
+		containsMinterRule(w, r, "C13.current")
 		for _, h := range ro.MSG["cfeminter"] {
 			res := cg.GuardCover(h, func(s *Site) bool {
 				if cg.Atom(s) != StoreSet {
